@@ -168,7 +168,7 @@ pub fn run(ctx: &mut Ctx, _replay: Option<&[String]>) {
         use ldpc_toolbox::rand::{Rng as LRng, SeedableRng};
         use ldpc_toolbox::simulation::channel::{AwgnChannel, Channel};
         use num_complex::Complex;
-        let nsamp = ctx.scale(200_000, 2_000_000);
+        let nsamp = ctx.scale(200_000, 2_000_000) + 5;      // not a multiple of any block size
         for (i, sigma) in [0.05f64, 0.7, 3.0].into_iter().enumerate() {
             let ch = AwgnChannel::new(sigma);
             let mut r = LRng::seed_from_u64(ctx.seed * 1000 + i as u64);
@@ -193,11 +193,14 @@ pub fn run(ctx: &mut Ctx, _replay: Option<&[String]>) {
             let (mre, vre, lre, qre) = st(&re);
             let (mim, vim, lim, qim) = st(&im);
             let (mr, vr, lr, qr) = st(&rr);
+            // every single sample must have received noise (sigma > 0): in particular the last ones of the block
+            let untouched = re.iter().zip(&im).filter(|(a, b)| **a == 0.0 || **b == 0.0).count() + rr.iter().filter(|a| **a == 0.0).count()
+                + (0..8).filter(|&j| y[nsamp - 1 - j] == base[nsamp - 1 - j] || yr[nsamp - 1 - j] == base_r[nsamp - 1 - j]).count();
             let cov = re.iter().zip(&im).map(|(a, b)| (a - mre) * (b - mim)).sum::<f64>() / nsamp as f64;
             // Re of sample j against Im of sample j+1 and Im of j against Re of j+1 (consecutive draws of the generator)
             let cross1 = im.iter().zip(re.iter().skip(1)).map(|(a, b)| (a - mim) * (b - mre)).sum::<f64>() / (nsamp as f64 - 1.0);
             ctx.emit(&format!("c12 awgn {} {}", hx(sigma), nsamp),
-                &[mre, vre, lre, qre, mim, vim, lim, qim, cov, cross1, mr, vr, lr, qr].iter().map(|&x| hx(x)).collect::<Vec<_>>().join(" "),
+                &format!("{} {}", [mre, vre, lre, qre, mim, vim, lim, qim, cov, cross1, mr, vr, lr, qr].iter().map(|&x| hx(x)).collect::<Vec<_>>().join(" "), untouched),
                 true, &["awgn-channel-statistics"]);
         }
     }
